@@ -97,6 +97,8 @@ pub struct Card {
     pub data_resp: u8,            // data response token for writes (0x05 accepted)
     pub status2: u8,              // second byte of the CMD13 R2 response
     pub bad_token: Option<u8>,    // sent instead of 0xFE
+    pub corrupt_only_block: Option<u32>, // multi-block read: corrupt_crc applies to this block number only
+    pub cmd58_r1: u8,             // extra R1 bits for CMD58 (non-zero = the command fails)
     // ---- protocol state ----
     pub spi_mode: bool, // CMD0 received
     pub ready: bool,    // ACMD41 completed
@@ -143,6 +145,8 @@ impl Card {
             data_resp: 0x05,
             status2: 0,
             bad_token: None,
+            corrupt_only_block: None,
+            cmd58_r1: 0,
             spi_mode: false,
             ready: false,
             v2_checked: false,
@@ -307,7 +311,7 @@ impl Card {
             }
             (false, 58) => {
                 let ocr0 = 0x80 | if self.kind == KIND_SDHC { 0x40 } else { 0x00 };
-                let r = self.r1();
+                let r = self.r1() | self.cmd58_r1;
                 self.respond(&[r, ocr0, 0xFF, 0x80, 0x00], After::Nothing);
             }
             (false, 9) => {
@@ -422,7 +426,11 @@ impl Card {
                     self.crc_acc = ref16_step(self.crc_acc, b);
                     out = b;
                 } else {
-                    let c = self.crc_acc ^ self.corrupt_crc.unwrap_or(0);
+                    let apply = match self.corrupt_only_block {
+                        Some(b) => b == self.addr,
+                        None => true,
+                    };
+                    let c = self.crc_acc ^ if apply { self.corrupt_crc.unwrap_or(0) } else { 0 };
                     out = if self.dpos == n { (c >> 8) as u8 } else { c as u8 };
                 }
                 self.dpos += 1;
@@ -1142,4 +1150,84 @@ fn c14_reinit_after_uninit() {
     assert!(d.spi.card.crc_on == use_crc, "sd.reinit: CRC mode not as requested after re-initialisation");
     assert!(d.spi.card.viol.is_none(), "sd.proto: illegal SPI-mode conversation during re-initialisation");
     kani::cover!(crc_before && !use_crc);
+}
+
+
+// ------------------------------------------------ further C13 / C14 cases ---
+
+/// Initialisation that fails at the CMD58 step (non-zero R1): the call reports
+/// the error and the card stays marked uninitialised, so the next call starts
+/// identification again (CMD0 first).
+#[kani::proof]
+#[kani::unwind(12)]
+fn c13_failed_init_at_cmd58_stays_uninit() {
+    let use_crc: bool = kani::any();
+    let mut card = Card::new(KIND_SDHC);
+    card.ncr = 1;
+    let bits: u8 = kani::any();
+    kani::assume(bits != 0 && bits & 0x80 == 0);
+    card.cmd58_r1 = bits;
+    let mut d = driver(card, None, use_crc);
+    let r = d.check_init();
+    assert!(r.is_err(), "sd.init: CMD58 failure not reported");
+    assert!(d.card_type.is_none(), "sd.init_failed: failed initialisation left the card marked initialised");
+    assert!(d.spi.card.viol.is_none(), "sd.proto: illegal conversation during a failing identification");
+    kani::cover!(bits == 0x04);
+}
+
+/// Multi-block read with CRC on: a CRC mismatch in the FIRST block fails the call.
+#[kani::proof]
+#[kani::unwind(516)]
+fn c13_read2_crc_mismatch_first_block() {
+    let mut card = timed(Card::new_ready(KIND_SDHC, true), (0, 0, 0));
+    sym_mem(&mut card, 10);
+    let x: u16 = kani::any();
+    kani::assume(x != 0);
+    card.corrupt_crc = Some(x);
+    card.corrupt_only_block = Some(10);
+    let mut d = driver(card, Some(KIND_SDHC), true);
+    let mut blocks = [Block::new(), Block::new()];
+    let r = d.read(&mut blocks, BlockIdx(10));
+    assert!(r.is_err(), "sd.crc: multi-block read succeeded although a block's CRC did not match");
+    kani::cover!(x == 1);
+}
+
+/// A command issued while the card still signals busy (left over from the
+/// previous operation): the driver waits for the busy period to end before the
+/// first byte of the frame - also for the CMD55 prefix of application commands.
+fn waits_for_busy(app: bool, busy: u8) {
+    let mut card = Card::new_ready(KIND_SDHC, false);
+    card.ncr = 1;
+    card.ph = Ph::Busy;
+    card.wait = busy;
+    let mut d = driver(card, Some(KIND_SDHC), false);
+    let r = if app { d.card_acmd(ACMD23, 5) } else { d.card_command(CMD13, 0) };
+    assert!(r.is_ok(), "sd.busy: command after a busy period failed");
+    assert!(d.spi.card.viol.is_none(), "sd.proto: command sent while the card signals busy");
+    if app {
+        assert!(d.spi.card.preerase == 5, "sd.proto: application command not executed");
+    }
+    kani::cover!(r.is_ok());
+}
+#[kani::proof]
+#[kani::unwind(12)]
+fn c14_acmd_waits_for_busy() {
+    waits_for_busy(true, 2);
+}
+#[kani::proof]
+#[kani::unwind(12)]
+fn c14_command_waits_for_busy() {
+    waits_for_busy(false, 1);
+}
+
+#[kani::proof]
+#[kani::unwind(14)]
+fn c12_command_max_response_delay() {
+    let mut card = Card::new_ready(KIND_SD2, false);
+    card.ncr = 8;
+    let mut d = driver(card, Some(KIND_SD2), false);
+    let r = d.card_command(CMD13, 0);
+    assert!(matches!(r, Ok(0)), "sd.timing: a response after the maximum legal delay of 8 bytes was not accepted");
+    assert!(d.spi.card.viol.is_none(), "sd.proto: illegal conversation");
+    kani::cover!(r.is_ok());
 }
